@@ -7,6 +7,7 @@ import (
 	"bytes"
 	"encoding/binary"
 	"fmt"
+	"runtime/debug"
 	"sort"
 	"strings"
 	"sync"
@@ -225,7 +226,7 @@ func (s *Session) guard(op string, fn func() error) (res string) {
 			if len(msg) > 200 {
 				msg = msg[:200]
 			}
-			s.fail("C05", "panic", "%s panicked: %s", op, msg)
+			s.fail("C05", "panic", "%s panicked: %s | %s", op, msg, panicSite())
 			res = "panic"
 		}
 	}()
@@ -249,7 +250,10 @@ func ErrKind(err error) string {
 		return "ok"
 	}
 	msg := err.Error()
-	kinds := []struct{ k error; n string }{
+	kinds := []struct {
+		k error
+		n string
+	}{
 		{pq.ACKTooMany, "acktoomany"}, {pq.ACKEmptyQueue, "ackempty"}, {pq.QueueClosed, "queueclosed"},
 		{pq.ReaderClosed, "readerclosed"}, {pq.WriterClosed, "writerclosed"}, {pq.InactiveTx, "inactivetx"},
 		{pq.UnexpectedActiveTx, "activetx"}, {txfile.OutOfMemory, "oom"}, {pq.SeekFail, "seekfail"}, {pq.ReadFail, "readfail"},
@@ -646,3 +650,20 @@ func (s *Session) Counters() {
 }
 
 var _ = strings.Contains
+
+// panicSite names the library frames of the panic being recovered (for the failure message).
+func panicSite() string {
+	st := string(debug.Stack())
+	var frames []string
+	lines := strings.Split(st, "\n")
+	for i := 0; i+1 < len(lines) && len(frames) < 6; i++ {
+		if strings.Contains(lines[i+1], "/repo/") && !strings.Contains(lines[i+1], "verif_") {
+			f := strings.TrimSpace(lines[i+1])
+			if k := strings.Index(f, " +0x"); k > 0 {
+				f = f[:k]
+			}
+			frames = append(frames, strings.TrimPrefix(f, "/repo/"))
+		}
+	}
+	return strings.Join(frames, " <- ")
+}
